@@ -207,7 +207,9 @@ def absval(obj, T):
         out = []
         for i, (p, ft) in enumerate(b[1]):
             c = cv[i] if (cv is not base.noValue and i < len(cv)) else base.noValue
-            if c is base.noValue or c is None or not c.isValue:
+            if c is not base.noValue and c is not None and not c.isValue and p == 'req':
+                out.append(('bad', 'novalue'))
+            elif c is base.noValue or c is None or not c.isValue:
                 if isinstance(p, tuple):
                     out.append(absval(build_value(ft, p[1]), ft))
                 else:
@@ -298,3 +300,20 @@ def absval_of_desc(T, v):
     """abstract content of a value descriptor (what the caller meant), independent of pyasn1 objects
     except for REAL/char normalisation done by building the leaf"""
     return absval(build_value(T, v), T)
+
+
+def has_bad(a):
+    if a is None: return False
+    if a[0] == 'bad': return True
+    if a[0] in ('rec', 'list', 'bag'): return any(has_bad(x) for x in a[1])
+    if a[0] == 'choice': return has_bad(a[2])
+    return False
+
+
+def absval_top(obj, T):
+    """absval, with any misfit anywhere (or an exception while walking a broken object) collapsed to ('bad',)"""
+    try:
+        a = absval(obj, T)
+    except Exception as e:
+        return ('bad', '%s: %s' % (type(e).__name__, str(e)[:100]))
+    return ('bad', 'inner') if has_bad(a) else a
